@@ -22,8 +22,9 @@ ROTSTEPS = [
     geom.rodrigues((0, 0, 1), math.pi),
     geom.rodrigues((1, 0, 0), math.pi / 2),
 ]
-M_DELTAS = (1.0, 2.0, 3.0, 5.0, 2.5, 100.0)
-A_DELTAS = (math.pi / 8, math.pi / 4, math.pi / 2, math.pi, 0.5, 1.0, 3.0)
+M_DELTAS = (1.0, 2.0, 3.0, 5.0, 2.5, 100.0, 2.00001, 0.99999)
+A_DELTAS = (math.pi / 8, math.pi / 4, math.pi / 2, math.pi, 0.5, 1.0, 3.0,
+            math.pi / 4 + 1e-5, math.pi / 2 - 1e-5)
 TOLS = (0.0, 0.1, 0.5)
 
 
@@ -309,6 +310,29 @@ def shard_angle(arg):
     return acc
 
 
+def shard_large(arg):
+    """a few long sequences (beyond 100 poses): vectorised / blocked code
+    paths must give the same pairs as the small-scope semantics"""
+    acc = Acc()
+    for n in arg:
+        steps = [float((k * 7) % 4) for k in range(n - 1)]
+        rots = [[0, 1, 2, 1, 0, 3, 5, 1][(k * 5) % 8] for k in range(n - 1)]
+        for delta in (2.0, 7.0, 2.00001):
+            _run(acc, {"kind": "path", "steps": steps, "delta": delta,
+                       "unit": "m", "all_pairs": False, "rel_tol": 0.1})
+            _run(acc, {"kind": "path", "steps": steps, "delta": delta,
+                       "unit": "m", "all_pairs": True, "rel_tol": 0.1})
+        for delta in (math.pi / 4, 1.0, math.pi / 2):
+            for unit in ("r", "d"):
+                d = math.degrees(delta) if unit == "d" else delta
+                for allp in (False, True):
+                    _run(acc, {"kind": "angle", "rots": rots, "delta": d,
+                               "unit": unit, "all_pairs": allp,
+                               "rel_tol": 0.1})
+        acc.count("large_instances")
+    return acc
+
+
 def shard_frames(arg):
     acc = Acc()
     for n in range(2, 13):
@@ -332,6 +356,8 @@ def run(ctx):
     acc.merge(pmap_acc(ctx, __name__, "shard_path_frac", shard(fseqs, 32)))
     acc.merge(pmap_acc(ctx, __name__, "shard_angle", shard(aseqs, 64)))
     acc.merge(pmap_acc(ctx, __name__, "shard_frames", [0]))
+    acc.merge(pmap_acc(ctx, __name__, "shard_large",
+                       [[n] for n in ctx.pick((130, 250), (130, 250, 1000))]))
     acc.counters["states"] = acc.counters["evaluations"]
     acc.rule = (
         "metres: all step sequences of 2..%d poses with step lengths "
